@@ -1,4 +1,4 @@
-import RSocketModel.Props.C16
+import RSocketModel.Proofs.C17Lemmas
 /-!
 # C17 — Reconnect yields a fresh, working connection
 `reconnect` as processed by `_reconnect_listener` is `closeForReconnect` followed by `connect`.
@@ -7,8 +7,6 @@ connection (server EOF, transport error, keepalive timeout with the liveness fla
 healthy connection) and whatever was pending.
 -/
 namespace RSocketModel.Client
-
-def reconnect (s : State) : State := step (step s .closeForReconnect) .connect
 
 /-- **fresh connection**: every request pending on the old connection is failed, the new epoch
 starts with only SETUP queued, nothing sent, stream ids restart from 1, the liveness flag is set,
@@ -53,12 +51,6 @@ theorem c17_any_number (s : State) (n : Nat) :
     rw [List.range_succ_eq_map, List.foldl_cons]
     simp only [List.foldl_map]
     exact ih (reconnect s)
-
-/-- what the code did before fix F5: the liveness flag survived the reconnect, so after a
-keepalive timeout the new connection sent nothing at all -/
-def stepPreF5 (s : State) : Ev → State
-  | .connect => { step s .connect with alive := s.alive }
-  | e => step s e
 
 theorem c17_counterexample_pre_f5 :
     ([Ev.connect, .providerYields, .senderStep, .keepaliveTimeout, .closeForReconnect, .connect, .providerYields,
